@@ -21,7 +21,7 @@ BUDGET = {"quick": 45, "thorough": 900}
 RULE = (
     "One run = one seeded history of 3-8 operations over small pools (2-3 value arrays of which two differ in one "
     "element, 2 label arrays, one user Aggregation object reused across calls): API calls (groupby_reduce, groupby_scan, "
-    "xarray_reduce on a DataArray and on a two-variable Dataset, rechunk_for_blockwise, rechunk_for_cohorts), computes of "
+    "xarray_reduce on a DataArray and on a two-variable Dataset, rechunk_for_blockwise / rechunk_for_cohorts in their array and xarray flavours), computes of "
     "one lazy handle or of 2-3 handles TOGETHER through dask.compute on the simulated cluster in both argument orders, "
     "and environment faults between calls (cachey's clock frozen / running backwards / jumping, flox.cache.cache "
     "cleared or shrunk, get_parts cache cleared). Co-computed handles are a base call plus variants differing in exactly "
@@ -37,7 +37,7 @@ ASSUMPTIONS = [
     "the pristine process is forked from a zygote that imported flox and JIT-warmed numbagg directly but never called flox",
     "sampled histories, not all finite sequences",
 ]
-PROBES = ["reindex_object_reused", "eager_call", "merged_pair", "merged_triple", "merged_dataset_variables", "clock_fault", "cache_cleared", "cache_resized",
+PROBES = ["xarray_rechunk_helper", "reindex_object_reused", "eager_call", "merged_pair", "merged_triple", "merged_dataset_variables", "clock_fault", "cache_cleared", "cache_resized",
           "parts_cache_cleared", "memo_hit_after_same_call", "custom_aggregation_reused", "rechunk_helper", "scan",
           "ingredient_array", "ingredient_labels", "ingredient_func", "ingredient_ddof", "ingredient_min_count",
           "ingredient_fill_value", "ingredient_dtype", "ingredient_method", "ingredient_engine", "ingredient_sort",
@@ -265,7 +265,8 @@ def gen(tape: Tape, tier: str) -> dict:
                 handles.append(len(ops) - 1)
                 ops.append({"op": "compute", "handles": [len(ops) - 2, len(ops) - 1]})
         elif r < 6 or r == 12:
-            ops.append({"op": "call", "api": tape.choice("gen.rechunk", ["rechunk_for_blockwise", "rechunk_for_blockwise", "rechunk_for_cohorts"]),
+            ops.append({"op": "call", "api": tape.choice("gen.rechunk", ["rechunk_for_blockwise", "rechunk_for_blockwise", "rechunk_for_cohorts",
+                                                                         "xr_rechunk_for_blockwise", "xr_rechunk_for_cohorts"]),
                         "arr": tape.draw("gen.arr", 3), "lab": 2 + tape.draw("gen.sortedlab", 2),
                         "chunks": [base_chunks if tape.chance("gen.samechunks", 0.7) else gen_chunks(tape, n, max_blocks=5)], "kwargs": {}})
         elif r < 7:
@@ -372,9 +373,32 @@ def do_call(arrays, labels, op, user_aggs):
             ds = xr.Dataset({"a": (("x",), darr), "b": (("x",), d2)})
             res = xarray_reduce(ds, labda, **kw)
             out = (res["a"].data, res["b"].data, np.asarray(res["lab"].values))
+    elif api in ("xr_rechunk_for_blockwise", "xr_rechunk_for_cohorts"):
+        import xarray as xr
+
+        import flox.xarray as fx
+
+        # one persistent xarray object per run: the helpers must rechunk a copy, never the caller's object
+        xpool = user_aggs.setdefault("__xr__", {})
+        key = (op["arr"], tuple(chunks[-1]))
+        if key not in xpool:
+            d2 = da.from_array(arrays[(op["arr"] + 1) % len(arrays)].astype("f8"), chunks=chunks)
+            xpool[key] = xr.Dataset({"a": (("x",), darr), "b": (("x",), d2), "c": (("y",), np.arange(3.0))})
+            user_aggs.setdefault("__xr_digest__", {})[key] = _xr_digest(xpool[key])  # state before any helper saw it
+        ds = xpool[key]
+        labda = xr.DataArray(lab, dims=["x"], name="lab")
+        if api == "xr_rechunk_for_blockwise":
+            r = fx.rechunk_for_blockwise(ds, "x", labda)
+        else:
+            r = fx.rechunk_for_cohorts(ds, "x", labda, force_new_chunk_at=[lab[0]], chunksize=max(1, len(lab) // 3))
+        out = (r["a"].data, r["b"].data, np.array(r["a"].data.chunks[-1]), np.asarray(r["c"].values))
     else:
         raise ValueError(api)
     return tuple(out)
+
+
+def _xr_digest(ds):
+    return digest([repr({k: tuple(v) for k, v in ds.chunks.items()}), ds["a"].data.name, ds["b"].data.name, list(ds.variables)], size=12)
 
 
 def _compute_sync(out):
@@ -467,8 +491,13 @@ def run(case, tape: Tape, ctx):
             if obj_digests.setdefault(key, d) != d:
                 raise Violation("side-effect", f"op {i} ({op.get('api')}) modified its {key.split(':')[0]} argument object "
                                 f"({key})", op=i, api=op.get("api"), argument=key.split(":")[0])
+        for key, ds in user_aggs.get("__xr__", {}).items():
+            d = _xr_digest(ds)
+            if user_aggs.get("__xr_digest__", {}).get(key, d) != d:
+                raise Violation("side-effect", f"op {i} ({op.get('api')}) modified the xarray object passed to it "
+                                f"(chunks/variables of the caller's Dataset changed)", op=i, api=op.get("api"), argument="xarray")
         for name, agg in user_aggs.items():
-            if name == "__objects__":
+            if name in ("__objects__", "__xr__", "__xr_digest__"):
                 continue
             d = digest(vars(agg), size=12)
             if agg_digests.setdefault(name, d) != d:
@@ -488,7 +517,7 @@ def run(case, tape: Tape, ctx):
                         # make sure the (reused) user object exists and is snapshotted BEFORE the call
                         _decode_kwargs(op["kwargs"], user_aggs)
                         for name, agg in user_aggs.items():
-                            if name != "__objects__":
+                            if name not in ("__objects__", "__xr__", "__xr_digest__"):
                                 agg_digests.setdefault(name, digest(vars(agg), size=12))
                         ctx.probe("custom_aggregation_reused", len([1 for o in case["ops"][:i] if o.get("op") == "call" and isinstance(dec_value(o.get("kwargs") or {}).get("func"), dict)]) > 0)
                     kw_objs = _decode_kwargs(op.get("kwargs"), user_aggs)
@@ -510,7 +539,8 @@ def run(case, tape: Tape, ctx):
                     ncalls += 1
                     ctx.probe("eager_call", bool(op.get("eager")))
                     ctx.probe("reindex_object_reused", any(k.startswith("reindex:") for k in user_aggs.get("__objects__", {})))
-                    ctx.probe("rechunk_helper", op["api"].startswith("rechunk"))
+                    ctx.probe("rechunk_helper", "rechunk" in op["api"])
+                    ctx.probe("xarray_rechunk_helper", op["api"].startswith("xr_rechunk"))
                     ctx.probe("scan", op["api"] == "groupby_scan")
                     if eg is not None and digest(eg) != eg_d:
                         raise Violation("side-effect", f"op {i} ({op['api']}) modified its expected_groups argument", op=i, api=op["api"])
